@@ -187,14 +187,12 @@ Proof.
     apply (head_complete cfg s s0); [|reflexivity|exact PD].
     constructor; [reflexivity|left; reflexivity|reflexivity|left; reflexivity|intros; reflexivity].
   - (* CInitBuf *)
-    destruct (ldm (mt s)); inv_some H.
-    + apply cstep_nojobs; [exact PD|reflexivity|exists []; rewrite app_nil_r; reflexivity].
-    + match goal with |- CStep cfg s (finish_op cfg ?x ?r) => destruct (ir_finish_op cfg x r) as (_ & _ & G & R & _) end.
-      apply cstep_nojobs; [exact PD|rewrite G; reflexivity|exact R].
-  - (* CInitSeq *)
     inv_some H.
-    match goal with |- CStep cfg s (finish_op cfg ?x ?r) => destruct (ir_finish_op cfg x r) as (_ & _ & G & R & _) end.
-    apply cstep_nojobs; [exact PD|rewrite G; reflexivity|exact R].
+    apply cstep_nojobs; [exact PD|reflexivity|exists []; rewrite app_nil_r; reflexivity].
+  - (* CInitSeq *)
+    destruct (ldm (mt s)); inv_some H;
+    (match goal with |- CStep ?c s (finish_op _ ?x ?r) => destruct (ir_finish_op c x r) as (_ & _ & G & R & _) end;
+     apply cstep_nojobs; [exact PD|rewrite G; reflexivity|exact R]).
 Qed.
 
 (* ------------------------------------------------------------------ *)
